@@ -22,7 +22,7 @@ mod symmetric_common;
 //re-export everything to appear as one module
 use nonsymmetric_common::*;
 #[cfg(clarabel_verif)]
-pub(crate) use nonsymmetric_common::{Nonsymmetric3DCone, NonsymmetricCone};
+pub(crate) use nonsymmetric_common::{Nonsymmetric3DCone, NonsymmetricCone, NonsymmetricNDCone};
 pub use {
     compositecone::*, expcone::*, genpowcone::*, nonnegativecone::*, powcone::*, socone::*,
     supportedcone::*, symmetric_common::*, zerocone::*,
